@@ -4,7 +4,7 @@ BUILD = os.path.join(os.path.dirname(os.path.dirname(os.path.abspath(__file__)))
 
 
 def harness_args(run, tier, n, cases):
-    e2e_n = 40 if tier == "quick" else 500
+    e2e_n = 40 if tier == "quick" else 1000
     if n > 100000:      # widened search after a broken obligation
         e2e_n *= 3
     return [
